@@ -217,7 +217,17 @@ class Emitter:
         if f == "opaque":
             # optional vocabulary key `opaque_types: {text without blanks: type}`: what a `dyn Trait` / `impl Trait`
             # type is modelled as (`&mut dyn std::io::Write` -> the scripted writer), whatever the parameter is called
-            return self.v.get("opaque_types", {}).get(ty.text.replace(" ", ""), UNKNOWN)
+            got = self.v.get("opaque_types", {}).get(ty.text.replace(" ", ""), UNKNOWN)
+            if got == UNKNOWN and ty.text == "fn" and getattr(ty, "params", None) is not None:
+                # a function pointer `fn(T, &U) -> R` over types of the vocabulary: a "fnval" (applied like a shape, e_call);
+                # a `&mut` parameter or an unknown type leaves it unknown
+                if any(p.form == "ref" and p.mut for p in ty.params):
+                    return UNKNOWN
+                pts = [self.ty_of_ast(p) for p in ty.params]
+                rt = self.ty_of_ast(ty.ret)
+                if all(self.table_elt_known(t) for t in pts + [rt]):
+                    return ("fnval", tuple(("in", t) for t in pts), rt, True)
+            return got
         if f == "path":
             name = ty.segs[-1]
             gt = self.v.get("generic_types")
@@ -516,12 +526,117 @@ class Emitter:
             ty = self.ty_of_ast(it.ty)
         except EmitError:
             return None
-        if ty[0] not in ("int", "bool"):
+        if ty[0] not in ("int", "bool") and not self.source_table(it, ty):
             return None
         return (it, ty)
 
+    # -- private tables of the source ------------------------------------------
+    # An item-level `const NAME: [T; n] = [ .. ];` that is NOT vocabulary (`consts`) is read like a named scalar: by its
+    # VALUE, every entry translated in an empty environment at the declared element type (e_source_const compares the
+    # two), so the table is DATA read off the source -- a changed / dropped / reordered entry changes the term.  Only a
+    # literal array whose element type is fully known to the vocabulary (integers, bools, vocabulary structs / enums,
+    # tuples of those; function pointers over those: fn_value) qualifies; anything else stays an unknown name.
+    def source_table(self, it, ty):
+        if ty[0] != "list" or it.val.kind != "array" or not it.val.elems:
+            return False
+        return self.table_elt_known(ty[1])
+
+    def table_elt_known(self, t):
+        if t[0] in ("int", "bool", "struct", "enum"):
+            return True
+        if t[0] == "fnval":
+            return all(self.table_elt_known(x[1]) for x in t[1]) and self.table_elt_known(t[2])
+        if t[0] == "tuple":
+            return all(self.table_elt_known(x) for x in t[1])
+        return False
+
+    def table_entry(self, e, ty, cname):
+        """one entry of a private table of the source at its declared type, in an empty environment"""
+        while e.kind == "paren":
+            e = e.e
+        if ty[0] == "tuple":
+            if e.kind != "tuple" or len(e.elems) != len(ty[1]):
+                raise EmitError("constant %s: an entry is not a %d-tuple" % (cname, len(ty[1])))
+            return "(" + ", ".join(self.table_entry(x, t, cname) for x, t in zip(e.elems, ty[1])) + ")"
+        if ty[0] == "fnval":
+            return self.fn_value(e, ty, cname)
+        pr = self.try_pure(e, Env(self))
+        if pr is None:
+            raise EmitError("constant %s: an entry is not a constant expression of the vocabulary" % cname)
+        if pr[1] != ty:
+            raise EmitError("constant %s: declared %r, an entry is a %r" % (cname, ty, pr[1]))
+        return pr[0]
+
+    def fn_value(self, e, ty, cname):
+        """a PATH used as a function pointer of type `ty` (a "fnval"): a method of a vocabulary type written
+        `<type path>::<method>` (optional vocabulary key `method_paths: {whole path: (type name, method)}`; the method
+        is applied to a variable exactly as `x.method()` would be and abstracted: `(fun x => <x.method()>)`), or a
+        translated free function of the source with the same parameter / result types"""
+        if e.kind != "path":
+            raise EmitError("constant %s: a function-pointer entry is not a path" % cname)
+        path = "::".join(e.segs)
+        mp = self.v.get("method_paths", {}).get(path)
+        if mp is not None:
+            tname, mname = mp
+            if len(ty[1]) != 1 or ty[1][0] != ("in", ("struct", tname)):
+                raise EmitError("constant %s: %s as a %r" % (cname, path, ty))
+            x = self.fresh("t")
+            pr = self.try_pure(N("mcall", recv=N("term", term=x, ty=("struct", tname)), name=mname, args=[]), Env(self))
+            if pr is None or pr[1] != ty[2]:
+                raise EmitError("constant %s: %s is not a total method answering %r" % (cname, path, ty[2]))
+            return "(fun %s => %s)" % (x, pr[0])
+        sh = self.fn_shapes.get(path) if len(e.segs) == 1 else None
+        if sh is not None and not sh.get("self") and not sh.get("cfg") and sh.get("total") \
+                and tuple(sh["params"]) == tuple(ty[1]) and sh["ret"] == ty[2]:
+            return sh["coq"]
+        raise EmitError("constant %s: function pointer %s is not in the vocabulary" % (cname, path))
+
+    # -- effect-free closures as Gallina functions --------------------------------
+    def pure_fun(self, cl, elts, env, what):
+        """a closure that neither panics nor assigns -> (Gallina function, result type); `elts`: the type of its
+        parameter, or the list of the types of its parameters.  A parameter is a name or a tuple pattern of names / `_`
+        (`|(effect, _)|`, `|&(_, class)|`, `|style, (_, set)|`)."""
+        if not isinstance(elts, list):
+            elts = [elts]
+        if cl is None or cl.kind != "closure" or len(cl.params) != len(elts):
+            raise EmitError("%s needs a %d-parameter closure" % (what, len(elts)))
+        env2 = env
+        heads = []
+        for (p, _pty), elt in zip(cl.params, elts):
+            while p.kind == "pref":
+                p = p.inner
+            if p.kind == "pident":
+                c = self.fresh(p.name)
+                env2 = env2.bind(p.name, c, elt)
+                heads.append(c)
+            elif p.kind == "ptuple":
+                tys = elt[1] if elt[0] == "tuple" and len(elt[1]) == len(p.elems) else None
+                if tys is None:
+                    raise EmitError("%s: tuple pattern against %r" % (what, elt))
+                names = []
+                for x, t in zip(p.elems, tys):
+                    while x.kind == "pref":
+                        x = x.inner
+                    if x.kind == "pwild":
+                        names.append("_")
+                    elif x.kind == "pident":
+                        c = self.fresh(x.name)
+                        names.append(c)
+                        env2 = env2.bind(x.name, c, t)
+                    else:
+                        raise EmitError("%s: closure parameter pattern" % what)
+                heads.append("'(" + ", ".join(names) + ")")
+            else:
+                raise EmitError("%s: closure parameter pattern" % what)
+        pr = self.try_pure(cl.body, env2)
+        if pr is None:
+            raise EmitError("%s: the closure can panic or assigns a captured variable" % what)
+        return "(fun %s => %s)" % (" ".join(heads), pr[0]), pr[1]
+
     def e_source_const(self, sc, env, k):
         it, ty = sc
+        if ty[0] == "list":
+            return k("[" + "; ".join(self.table_entry(x, ty[1], it.name) for x in it.val.elems) + "]", ty, env)
         stack = getattr(self, "const_stack", [])
         if it.name in stack:
             raise EmitError("constant %s is defined in terms of itself" % it.name)
@@ -2487,6 +2602,40 @@ class Emitter:
 
     def m_list_clear(self, e, rt, rty, env, k):
         return self.write_place(e.recv, "[]", env, lambda env2: k("tt", UNIT, env2))
+
+    # `xs.iter().filter(|p| test)`, `.map(|p| value)` with an effect-free closure, `v.extend(<list>)`: the list functions
+    # (a vocabulary entry `("list", "map")` wins, e_mcall)
+    def m_list_filter(self, e, rt, rty, env, k):
+        f, ty = self.pure_fun(e.args[0] if len(e.args) == 1 else None, rty[1], env, "Iterator::filter")
+        if ty != BOOL:
+            raise EmitError("Iterator::filter: the closure does not answer a bool")
+        return k("(filter %s %s)" % (f, rt), rty, env)
+
+    def m_list_map(self, e, rt, rty, env, k):
+        f, ty = self.pure_fun(e.args[0] if len(e.args) == 1 else None, rty[1], env, "Iterator::map")
+        return k("(map %s %s)" % (f, rt), ("list", ty), env)
+
+    def m_list_fold(self, e, rt, rty, env, k):
+        """`it.fold(init, |acc, x| step)` with an effect-free step: fold_left"""
+        if len(e.args) != 2:
+            raise EmitError("fold takes two arguments")
+
+        def k1(it, ity, env1):
+            f, ty = self.pure_fun(e.args[1], [ity, rty[1]], env1, "Iterator::fold")
+            if ty != ity:
+                raise EmitError("Iterator::fold: the step answers %r, the accumulator is a %r" % (ty, ity))
+            return k("(fold_left %s %s %s)" % (f, rt, it), ity, env1)
+        return self.expr(e.args[0], env, k1)
+
+    def m_list_extend(self, e, rt, rty, env, k):
+        if len(e.args) != 1:
+            raise EmitError("extend takes one argument")
+
+        def k1(t, ty, env1):
+            if ty[0] != "list" or (rty[1] != UNKNOWN and ty[1] != UNKNOWN and ty[1] != rty[1]):
+                raise EmitError("extend of %r with %r" % (rty, ty))
+            return self.write_place(e.recv, "(%s ++ %s)" % (rt, t), env1, lambda env2: k("tt", UNIT, env2))
+        return self.expr(e.args[0], env, k1)
 
     def m_list_split_at(self, e, rt, rty, env, k):
         return self.expr(e.args[0], env, lambda t, _ty, env1: self.bind("split_at %s %s" % (rt, t), ("tuple", (rty, rty)), env1, k, hint="sp"))
